@@ -2,7 +2,7 @@
  * C09 (a): constant-time word primitives of inner.h and br_divrem() against
  * their C-level definitions computed with 64-bit arithmetic.
  *
- *   h_bigint_prim --seed S --worker i --nworkers n --cases N
+ *   h_bigint_prim --seed S --worker i --nworkers n --cases N [--stream j]
  *
  * Work: (1) the full cross product of an edge set (rows dealt to the workers,
  * independent of the seed); (2) N random pairs per worker.  For each pair
@@ -126,7 +126,8 @@ main(int argc, char **argv)
 	long long c;
 	uint32_t x, y, z;
 
-	vf_rng_init(&R, (uint64_t)vf_argi(argc, argv, "--seed", 1), 0xABCD0000ull + (uint64_t)worker);
+	vf_rng_init(&R, (uint64_t)vf_argi(argc, argv, "--seed", 1), 0xABCD0000ull + (uint64_t)worker
+		+ 4096 * (uint64_t)vf_argi(argc, argv, "--stream", 0));
 
 	for (k = 0; k < 32; k ++) {
 		uint32_t p = (uint32_t)1 << k;
